@@ -333,7 +333,7 @@ pub fn c05_base256_lengths(seed: u64, max_payload: u64) -> Phase {
 /// with the pixels of a genuine rendering of the catalogue size re-framed.
 pub fn dimension_aliases(prop: &'static str, seed: u64) -> Phase {
     // (size, variant) -> (len, width)
-    const NVAR: u64 = 22;
+    const NVAR: u64 = 34;
     let total = N_SIZES as u64 * NVAR * 4;
     let make = move |_ctx: &Ctx, i: u64| -> Trace {
         let fill = i % 4;
@@ -371,7 +371,19 @@ pub fn dimension_aliases(prop: &'static str, seed: u64) -> Phase {
                 let o = &SIZES[(s.idx + 7) % N_SIZES];
                 ((n / o.cols.max(1)) * o.cols, o.cols)
             }
-            _ => (n + 256, w),
+            21 => (n + 256, w),
+            // widths shifted by 256*j (packed / truncated dimension keys), with the height as is and with
+            // the bits of j cleared from it
+            22..=29 => {
+                let j = [2usize, 4, 8, 16][((var - 22) / 2) as usize];
+                let hh = if var % 2 == 0 { h } else { (h & !j).max(1) };
+                (hh * (w + 256 * j), w + 256 * j)
+            }
+            // a partial extra row whose length is a multiple of the height
+            30 => (n + h, w),
+            31 => (n + 2 * h, w),
+            32 => (n + h * (w / h).max(1), w),
+            _ => (n - h, w),
         };
         let mut faults = Vec::new();
         let producer;
